@@ -4653,6 +4653,14 @@ class QuadraticBezier(Curve):
         """Calculate the length of the path up to a certain position"""
         a = self.start - 2 * self.control + self.end
         b = 2 * (self.control - self.start)
+        if abs(b) > 0 and abs(a) <= 2e-5 * abs(b):
+            # Nearly uniform parameterisation (control close to the chord midpoint): the closed form below
+            # cancels catastrophically (relative error ~ 3e-17 * |b| / |a|). To second order in |a| / |b| the
+            # length is the chord plus the perpendicular part of a, squared, over 6 |b|.
+            chord = abs(a + b)
+            dot = a.real * b.real + a.imag * b.imag
+            perp_sq = max(abs(a) * abs(a) - dot * dot / (abs(b) * abs(b)), 0.0)
+            return chord + perp_sq / (6.0 * abs(b))
         try:
             # For an explanation of this case, see
             # http://www.malczak.info/blog/quadratic-bezier-curve-length/
